@@ -331,6 +331,13 @@ def rules(chk, db):
     receiver(chk, db, 'RC')
     invoke(chk, db, 'IV')
     narrowing(chk, db, 'NR')
+    # requests and replies travel over the library's stream transports in the examples: their primitives, including the advisory
+    # Ensure/Prepare, must not fail or disturb the stream for a well-formed request (e.g. one that ends in an empty string)
+    from .. import rwrules
+    chk.rule('ST', 'stream transport primitives move exactly the requested bytes; Ensure/Prepare have no effect and succeed', minimum=6)
+    chk.rule('SS', 'stream status mapping', minimum=2)
+    rwrules.check_stream_class(chk, db, 'nop::StreamReader', 'reader', 'ST', 'SS')
+    rwrules.check_stream_class(chk, db, 'nop::StreamWriter', 'writer', 'ST', 'SS')
     witness.run(chk, 'c14_rpc.cpp', 'W', 'compile-time witnesses for interface declarations and bindings', minimum=6)
 
 
